@@ -2,6 +2,8 @@ package termin
 
 import (
 	"fmt"
+	"math"
+	"sort"
 
 	ad "github.com/pbenner/autodiff"
 	vd "github.com/pbenner/autodiff/statistics/vectorDistribution"
@@ -185,7 +187,7 @@ func (w *mis) op() {
 		}
 		return a
 	}
-	kind := t.Choose(22)
+	kind := t.Choose(24)
 	name := ""
 	switch kind {
 	case 0, 1: // element read outside the view
@@ -772,6 +774,56 @@ func (w *mis) op() {
 		}
 		c.Count("misuse:inconsistent-data")
 		return
+	case 22, 23: // an admissible bulk read of a (transposed) view must stay inside the view's bounds
+		v, tr := m, false
+		if !w.sparse && t.Bool(2, 3) {
+			v, tr = m.T(), true
+		}
+		name = "AsVector"
+		if tr {
+			name = "T.AsVector"
+		}
+		r, cc := v.Dims()
+		var av ad.Vector
+		res := try(func() error { av = v.AsVector(); return nil })
+		if loud(res) {
+			w.fail("in-bounds", name+"|admissible-call-panicked", "%s on a %dx%d view panicked: %v", name, r, cc, res.pv)
+		}
+		if av.Dim() != r*cc {
+			w.fail("in-bounds", name+"|result-of-the-wrong-shape", "%s on a %dx%d view returned %d elements", name, r, cc, av.Dim())
+		}
+		// the order in which AsVector lists the elements is not specified (storage
+		// order for a transposed matrix): the elements are compared as multisets
+		want, got := []float64{}, []float64{}
+		for k := 0; k < r*cc && k < av.Dim(); k++ {
+			i, j := k/cc, k%cc
+			pi, pj := w.r0+i, w.c0+j
+			if tr {
+				pi, pj = w.r0+j, w.c0+i
+			}
+			x, y := before[pi*w.C+pj], av.Float64At(k)
+			if x != x {
+				x = math.Inf(1)
+			}
+			if y != y {
+				y = math.Inf(1)
+			}
+			want, got = append(want, x), append(got, y)
+		}
+		sort.Float64s(want)
+		sort.Float64s(got)
+		for k := range want {
+			if want[k] != got[k] {
+				w.fail("in-bounds", name+"|element-from-outside-of-the-view", "%s on the view rows [%d,%d) x cols [%d,%d)%s of a %dx%d parent returned the elements (sorted) %v, the view holds %v", name, w.r0, w.r1, w.c0, w.c1, map[bool]string{true: ".T()", false: ""}[tr], w.R, w.C, got, want)
+				break
+			}
+		}
+		if r*cc > 0 {
+			// writing through the result may or may not reach the parent, but never
+			// an element outside the view (checked by w.after)
+			core.Try(func() { av.At(t.Choose(r * cc)).SetFloat64(9) })
+		}
+		c.Count("in-bounds:" + name)
 	}
 	w.after(name, before, kind >= 2 && kind != 16 && kind != 17)
 	c.StateStr(fmt.Sprintf("%s|%s|%d", w.class(), name, w.e))
